@@ -187,3 +187,70 @@ Proof.
     apply in_flat_map. exists o. split; [exact Ho|]. unfold frag_items. apply in_app_iff. right. exact Hi.
 Qed.
 End Args.
+
+(* ---- with unique fragment names the erased document has exactly the validator's edges:
+   the certified test ranked_b decides NoFragmentCycles' declarative predicate ---- *)
+Lemma names_erase_list : forall ss h,
+  Forall (fun x => forall h, In h (map (fun p => snd (snd p)) (ctx_spreads_sel x)) -> In h (all_spreads_sel (erase_sel x))) ss ->
+  In h (spread_names ss) -> In h (all_spreads (map erase_sel ss)).
+Proof.
+  intros ss h IH Hh. rewrite Forall_forall in IH. unfold spread_names, ctx_spreads in Hh. rewrite map_app in Hh.
+  unfold all_spreads. apply in_flat_map. apply in_app_or in Hh. destruct Hh as [Hh|Hh].
+  - apply in_map_iff in Hh. destruct Hh as [p [Ep Hp]]. apply in_flat_map in Hp. destruct Hp as [x [Hx Hp]].
+    destruct x as [id' al nm args ds' ssid sub| id nid g ds | id' tc ds' ssid sub]; [destruct Hp | | destruct Hp].
+    destruct Hp as [Hp|[]]. subst p. simpl in Ep. subst h.
+    exists (erase_sel (WSpread id nid g ds)). split; [apply in_map; exact Hx | left; reflexivity].
+  - apply in_map_iff in Hh. destruct Hh as [p [Ep Hp]]. apply in_concat in Hp. destruct Hp as [l [Hl Hp]].
+    apply in_rev in Hl. apply in_map_iff in Hl. destruct Hl as [x [El Hx]]. subst l.
+    exists (erase_sel x). split; [apply in_map; exact Hx|]. apply (IH x Hx). apply in_map_iff. exists p. split; assumption.
+Qed.
+
+Lemma names_erase_sel : forall x h, In h (map (fun p => snd (snd p)) (ctx_spreads_sel x)) -> In h (all_spreads_sel (erase_sel x)).
+Proof.
+  induction x as [id al nm args ds ssid sub IH | id nid g ds | id tc ds ssid sub IH] using wsel_ind'; intros h Hh.
+  - rewrite ctx_spreads_sel_field in Hh. simpl. rewrite all_spreads_go. apply (names_erase_list sub h IH Hh).
+  - destruct Hh.
+  - rewrite ctx_spreads_sel_inline in Hh. simpl. rewrite all_spreads_go. apply (names_erase_list sub h IH Hh).
+Qed.
+
+Lemma names_erase : forall ss h, In h (spread_names ss) -> In h (all_spreads (map erase_sel ss)).
+Proof. intros ss h. apply names_erase_list. apply Forall_forall. intros x _. apply names_erase_sel. Qed.
+
+Lemma last_fragment_skip : forall g fs acc, (forall y, In y fs -> fr_name y <> g) -> last_fragment g fs acc = acc.
+Proof.
+  intros g fs. induction fs as [|x r IH]; intros acc H; [reflexivity|]. simpl.
+  destruct (String.eqb g (fr_name x)) eqn:E.
+  - apply String.eqb_eq in E. exfalso. apply (H x (or_introl eq_refl)). symmetry. exact E.
+  - apply IH. intros y Hy. apply H. right. exact Hy.
+Qed.
+
+Lemma last_fragment_unique : forall fs f acc, NoDup (map fr_name fs) -> In f fs -> last_fragment (fr_name f) fs acc = Some f.
+Proof.
+  induction fs as [|x r IH]; intros f acc ND Hin; [destruct Hin|]. simpl in ND. inversion ND as [|? ? Hx ND']; subst. simpl.
+  destruct Hin as [Hin|Hin].
+  - subst x. rewrite String.eqb_refl. apply last_fragment_skip. intros y Hy E. apply Hx. rewrite <- E. apply in_map. exact Hy.
+  - apply IH; assumption.
+Qed.
+
+Lemma edge_edgeD : forall S W g h, NoDup (map wf_name (w_frags W)) -> edge W g h -> edgeD S (erase W) g h.
+Proof.
+  intros S W g h ND [f [Hf [En Hh]]]. subst g.
+  exists (resolve S (wf_cond f), map erase_sel (wf_sel f)). split; [|simpl; apply names_erase; exact Hh].
+  apply (fbody_frag S (erase W) (wf_name f) (erase_frag f)). unfold frag. simpl.
+  change (wf_name f) with (fr_name (erase_frag f)). apply last_fragment_unique.
+  - rewrite map_map. simpl. exact ND.
+  - apply in_map. exact Hf.
+Qed.
+
+Theorem cycles_oracle : forall W, NoDup (map wf_name (w_frags W)) ->
+  (ranked_b (erase W) = true <-> ~ Violates_no_fragment_cycles W).
+Proof.
+  intros W ND. set (S := {| s_types := []; s_query := ""; s_mutation := None |}). split.
+  - intros H [g R]. apply (proj1 (ranked_b_acyclic S (erase W))) in H.
+    apply (acyclic_no_cycle S (erase W) H g). unfold reach in R.
+    assert (G : forall a b, clos_trans name (edge W) a b -> reachD S (erase W) a b).
+    { intros a b R'. unfold reachD. induction R' as [a b E | a c b R1 IH1 R2 IH2];
+        [apply t_step; apply (edge_edgeD S W a b ND E) | eapply t_trans; eauto]. }
+    apply G. exact R.
+  - intro H. apply (proj2 (ranked_b_acyclic S (erase W))). apply acyclic_of_W. exact H.
+Qed.
